@@ -73,6 +73,20 @@ def generate(rng, tier, stats):
                                        canary=rng.random() < 0.5))
     for _ in range(160 if tier == "quick" else 2500):
         out.append(worldgen.gen_eds_world(rng, stats, {"scenario": rng.choice(["many_rs", "many_rs", "fresh", "new_template", "canary_failed", "steady", "no_canary_update"])}))
+    # a template edit that lands in the middle of a reconcile (after the controller read the ExtendedDaemonSet and listed the
+    # replica sets): the replica set created is the one for the template the decision was taken on
+    for _ in range(14 if tier == "quick" else 200):
+        n = rng.choice([2, 3])
+        c = histgen.gen_history(rng, None, n=n, canary=rng.random() < 0.4, length=0, podtemplate=True)
+        ops = c["ops"]
+        ops += histgen.rollout_ops(rng, 2)
+        imgs = ["img:1", "img:2", "img:3"]
+        for _k in range(rng.choice([1, 2])):
+            ops += [histgen.edit("ExtendedDaemonSet", histgen.NS, histgen.EDS, "image:" + rng.choice(imgs[1:])),
+                    histgen.rec_eds(faults={"mid_edit": "image:" + rng.choice(imgs)})]
+            ops += histgen.rollout_ops(rng, rng.choice([1, 2]))
+        wprop.bump(stats, "template edit landing in the middle of a reconcile", "yes")
+        out.append(c)
     # the replica set of the current template may be marked for deletion and still be there (a finalizer holds it):
     # it still is the replica set of that template - no second one is created
     for c in out:
